@@ -135,6 +135,8 @@ add("impl", "file", "enum e%d : unsigned long long { A%d = -1 };", "enum e%d : u
 # the result of the comma operator is not an lvalue and not a null pointer constant, whatever its operands are
 add("lang", "block", "(0, gi) = 1;", "gp = &(0, gi);", "gp = (0, 0);", "(1, 2, gi)++;", "(0, gs).a = 1;", "gp = &(0, garr);"[:0] or "(0, gi) += 2;", "(1 ? gi : gi) = 2;", "gp = &(0 ? gi : gi);", "(1 ? gi : gl)++;")
 
+add("lang", "file", "_Alignas(int(void)) int q%d;", "_Alignas(struct inc) int q%d;", "_Alignas(void) int q%d;", "_Alignas(int[]) int q%d;", "_Alignas(typeof(gf)) int q%d;")
+
 # ---- unsupported features ------------------------------------------------------------------------------------
 add("unsup", "file", "_Atomic int q%d;", "_Atomic(int) q%d;", "int _Atomic q%d;", "_Complex double q%d;", "double _Complex q%d;", "long double q%d = 1.0L;", "struct __attribute__((aligned(8))) ua%d { char c; };",
     "struct __attribute__((packed)) up%d { int a:3; };", "__attribute__((aligned(8))) int q%d;", "[[gnu::packed]] int q%d;", "__asm__(\"nop\");", "long double q%d(long double a) { return a + 1; }",
